@@ -19,6 +19,7 @@ THEOREMS = [
     "SleapVerif.C17.isArbo_implies_arbo",
     "SleapVerif.C17.toposort_relabel",
     "SleapVerif.C17.bfs_relabel",
+    "SleapVerif.C17.arbo_relabel",
     "SleapVerif.C17.child_before_parent_drops_parent",
     "SleapVerif.C17.parent_first_needed",
 ]
